@@ -9,20 +9,24 @@ from vlib import core
 META = {
     "level": "model_checking",
     "level_text": "StormFfi.tla models the three handle tables, the id counter, the four Mutexes (owner per lock), per-thread program "
-                  "counters and last error, with one action per critical section of lib.rs. Stage A: TLC checks the INTENDED machine "
-                  "(Dev = {}) exhaustively in small scope (quick: 2 threads x 2 calls over the lock-relevant functions and 1 thread x 2 calls over all 23 call kinds; "
+                  "counters and last error, with one action per critical section of lib.rs. Stage A: TLC checks the machine as written "
+                  "(Dev = {}: lib.rs after fix commits 872df55 d1f6866 def3ee6, wow-mpq 20d617c) exhaustively in small scope (quick: 2 threads x 2 calls over the lock-relevant functions and 1 thread x 2 calls over all 23 call kinds; "
                   "thorough adds 1 x 3, 3 threads x 1 call, and 2 x 2 over all functions; handles range over NULL / valid / closed / other-table / never-issued): deadlock freedom (TLC deadlock check), "
                   "no wait cycle, CloseInvalidatesOwn, cursor in 0..len, unique ids; and checks that each named deviation (the code before each fix commit: CloseSplit, "
                   "NoFindPurge, FindLate, FindNextNested, VerifyRelock, ProbeForever, HasFileStale; and the lock-order mutant CloseFileNested) "
                   "is refuted with a counterexample. Stage B: TLC emits every single call x handle class x buffer/offset class after a fixed setup history, "
-                  "sampled pairs, simulated single-thread histories (<= 5 calls) and 2-thread programs, plus the counterexample schedules. "
+                  "close-then-any-call pairs, cursor-observer pairs, id-allocation chains after a close, three-archive close histories, multi-sector "
+                  "(9000-byte) read/seek histories, sampled pairs, simulated single-thread histories (<= 5 calls) and 2-thread programs, plus the "
+                  "counterexample schedules (replayed turn by turn through the verif_sync hook). "
                   "Stage C: the real extern \"C\" functions are driven with canary-guarded buffers in a child process (hang / abort = data). "
                   "Stage D: TLC searches, for every recorded Inv/Ret history, an execution of the machine (Dev = {}) that explains it "
                   "(linearisation search); contents, sizes, names, existence are compared with what the Rust API reported.",
-    "level_note": "No memory-safety proof: canaries, crash isolation and the watchdog are testing aids. Multi-thread schedules are only "
-                  "steered (start order, an SFileEnumFiles-callback gate on ARCHIVES; exact replay needs fixes/C19-hook.patch). File contents "
-                  "are <= 40 bytes (explicit byte sequences in the trace). After the first rejected event of a history the rest of that "
-                  "history is not examined.",
+    "level_note": "No memory-safety proof: canaries, crash isolation and the watchdog are testing aids. TLC counterexample schedules are "
+                  "replayed exactly through the verif_sync hook (without the hook: start order + an SFileEnumFiles-callback gate on ARCHIVES); "
+                  "simulated 2-thread programs run free. File contents are explicit byte sequences (<= 40 bytes, plus one 9000-byte multi-sector "
+                  "family). In multi-thread histories the events after the first rejected one are not examined (single-thread histories are "
+                  "validated to their end; later mismatches are listed as secondary). A read failure of SFileOpenFileEx/ExtractFile on a writable "
+                  "archive is accepted when the Rust API fails on the same name (wow-mpq cannot read back a compressed file added in the session).",
     "technique": "TLA+ state machine with lock owners and per-thread pcs, TLC exhaustive check + counterexample export; "
                  "model-based test generation; linearisation-search trace validation by TLC",
     "design_ref": "DESIGN.md section 5 C19, appendix A.2",
@@ -241,6 +245,18 @@ def run(ctx, cases_override=None):
     trace = ctx.harness(binary, cases, timeout=2400)
     recs = [json.loads(l) for l in open(trace)]
     res = ctx.validate("Trace_StormFfi", trace, timeout=1500)
+    # single-thread histories are validated to their end (BAD + continue from the model's state): only the first
+    # rejected event of a history decides; later ones may be consequences of it and are reported as secondary
+    first, secondary = {}, []
+    for b in sorted(res["bad"], key=lambda b: b["line"]):
+        if b.get("reset_line") in first:
+            secondary.append(b)
+        else:
+            first[b.get("reset_line")] = b
+    res["bad"] = list(first.values())
+    if secondary:
+        ctx.notes.append(f"{len(secondary)} further mismatching event(s) after the first rejected event of their history (secondary, not counted): "
+                         + ", ".join(f"line {b['line']} {b['rec'].get('fn')} {b['why']}" for b in secondary[:12]))
     fns, sts, kinds = {}, {}, {}
     for r in recs:
         if r["ev"] == "Ret":
@@ -263,7 +279,7 @@ def run(ctx, cases_override=None):
     }
     assumptions = ["the id allocation scheme is not part of the property (any fresh non-zero id is accepted)",
                    "file contents <= 40 bytes; oversize read requests are served from a 256-byte guarded buffer",
-                   "created archives are format V1/V2 (V3/V4 flush defects belong to C06)"]
+                   "created and built archives are format V1..V4 (seeded); contents after flush/compact are re-read through the Rust API (Sync)"]
     return core.finish(ctx, "model_checking", cov, assumptions, res["bad"], sig_fn=_sig_fn(recs), trace=trace)
 
 
